@@ -36,6 +36,10 @@ RULES = {
     "path, domain and samesite - through set_cookie and delete_cookie on each of the 8 response classes: either the call raises ValueError (nothing emitted; labelled) or the "
     "response is emitted and every header pair passes the control-character clauses of both gateways, with all close/disconnect prefixes; benign attributes (path '/a b', "
     "domain 'example.com', samesite strict/none/lax, secure, httponly) must be accepted and go through the whole oracle",
+    "sizes": "enumerated: large bodies around every power-of-two block size a maintainer might slice by - k*B+d for B in {4096, 8192, 16384, 65536, 262144}, k in {1,2,3}, d in {-1,0,+1} - "
+    "for every response class that takes content: plain and html (str and bytes content), json, stream (one chunk), event stream (one event of that many bytes), file (default and 64 KiB chunk "
+    "size) x GET/HEAD on both interfaces (quick tier: HEAD only for file and plain); the usual oracle with all close/disconnect prefixes, and on the fault-free GET run a Content-Length header, "
+    "if present, must equal the number of body bytes emitted",
     "filefaults": "enumerated fault injection for FileResponse: the file is removed / truncated to nothing / truncated to half / extended AFTER the response object was built and "
     "before it is called x Range shape (none, single, multi) x GET/HEAD x zero-copy extension; the emitted events must be a legal prefix (an exception may escape)",
 }
@@ -195,7 +199,65 @@ def _apply_cookie_ops(resp, ops):
             raise CookieRejected(f"{c!r}: {exc}") from exc
 
 
+def expand_big(recipe):
+    """recipe key "big" = {"size": n, "as": "str" | "bytes"}: a body of exactly n bytes, kept symbolic in the case (replay files
+    and evidence samples stay small) and written out here."""
+    big = recipe.get("big")
+    if not big:
+        return recipe
+    n, r = big["size"], dict(recipe)
+    kind = r["kind"]
+    if kind in ("plain", "html"):
+        r["content"] = "a" * n if big.get("as", "str") == "str" else b"\xe9" * n
+    elif kind == "json":
+        r["content"] = "a" * max(0, n - 2)  # rendered with its two quotes
+    elif kind == "stream":
+        r["chunks"] = [b"\x00" * n]
+    elif kind == "sse":
+        r["events"] = [{"data": "a" * max(0, n - 8)}]  # b"data: " + data + b"\n\n"
+    elif kind == "file":
+        r["size"] = n
+    else:
+        raise core.HarnessError(f"big content for kind {kind!r}")
+    return r
+
+
+_BIGFILES = {}
+
+
+def big_file(n):
+    """One file of n bytes per process (the shared recipe interpreter re-derives and re-hashes the content of its file on
+    every build, which is fine for 200 bytes and takes seconds per case for 768 KiB)."""
+    key = (os.getpid(), n)
+    if key not in _BIGFILES:
+        from harness import tmpfiles
+
+        path = os.path.join(tmpfiles.workdir("verif_c05_big_"), f"big{n}.bin")
+        with open(path, "wb") as fh:
+            fh.write((bytes(range(256)) * (n // 256 + 1))[:n])
+        _BIGFILES[key] = path
+    return _BIGFILES[key]
+
+
+def build_big_file(recipe, side):
+    M = recipes.W if side == "wsgi" else recipes.A
+    kw = {}
+    if recipe.get("chunk"):
+        kw["chunk_size"] = recipe["chunk"]
+    if recipe.get("headers"):
+        kw["headers"] = dict(recipe["headers"])
+    for k in ("content_type", "download_name"):
+        if recipe.get(k):
+            kw[k] = recipe[k]
+    return recipes._apply_common(M.FileResponse(big_file(recipe["size"]), **kw), recipe)
+
+
 def build(recipe, side):
+    recipe = expand_big(recipe)
+    if recipe.get("bigfile"):
+        resp = build_big_file(recipe, side)
+        _apply_cookie_ops(resp, recipe.get("cookie_ops", ()))
+        return _Built(resp)
     if recipe.get("iterable") or recipe.get("cookie_ops"):
         resp = recipes.build_response(recipe, side)  # response objects are applications themselves
         if recipe.get("iterable"):
@@ -507,7 +569,53 @@ def oracle_filefault(case) -> Result:
     return r
 
 
+def oracle_sizes(case) -> Result:
+    """The usual oracle, plus: on the fault-free GET run a Content-Length header, if present, equals the body bytes emitted."""
+    r = oracle(case)
+    recipe = case["response"]
+    ctx = f"recipe {recipe!r} request {case.get('request')!r}"
+    if case.get("request", {}).get("method", "GET") != "HEAD":
+        w = wsgi_run(case, recipe)
+        a = asgi_run(case, recipe)
+        r.weight += 2
+        for side, run in (("wsgi", w), ("asgi", a)):
+            if run is None or run == "hang" or run.exc is not None:
+                continue  # reported by the usual oracle
+            declared = run.get("content-length")
+            sent = sum(len(c) for c in run.chunks)
+            if declared is not None and declared.strip() != str(sent):
+                r.fail(f"C05:{side}:content-length-vs-body", f"{ctx}: Content-Length {declared!r}, {sent} body bytes in {len(run.chunks)} pieces")
+    r.nontrivial = True
+    r.label(f"body-size={recipe['big']['size'] if 'big' in recipe else recipe.get('size')}")
+    return r
+
+
+BLOCK_SIZES = (4096, 8192, 16384, 65536, 262144)
+BIG_SIZES = sorted({k * b + d for b in BLOCK_SIZES for k in (1, 2, 3) for d in (-1, 0, 1)})
+
+
+def size_cases(quick):
+    for n in BIG_SIZES:
+        variants = [
+            {"kind": "plain", "big": {"size": n, "as": "str"}},
+            {"kind": "plain", "big": {"size": n, "as": "bytes"}},
+            {"kind": "html", "big": {"size": n, "as": "str"}},
+            {"kind": "html", "big": {"size": n, "as": "bytes"}},
+            {"kind": "json", "big": {"size": n}},
+            {"kind": "stream", "big": {"size": n}},
+            {"kind": "sse", "big": {"size": n}},
+            {"kind": "file", "bigfile": True, "size": n},  # default chunk size (256 KiB)
+            {"kind": "file", "bigfile": True, "size": n, "chunk": 65536},
+        ]
+        for recipe in variants:
+            for method in ("GET", "HEAD"):
+                if quick and method == "HEAD" and not (recipe["kind"] == "file" or recipe.get("big", {}).get("as") == "str" and recipe["kind"] == "plain"):
+                    continue
+                yield {"response": dict(recipe), "request": {"method": method}}
+
+
 SUBS = {
+    "sizes": oracle_sizes,
     "responses": oracle,
     "statuses": oracle_status,
     "filegrid": oracle,
@@ -666,6 +774,16 @@ def response_case(draw):
     elif recipe["kind"] == "redirect" and draw(st.integers(0, 5)) == 0:
         ch = draw(st.sampled_from(_REDIRECT_CHARS))
         recipe["url"] = draw(st.sampled_from(["/a{c}b", "{c}", "//h/{c}?{c}#{c}", "/é{c}"])).replace("{c}", ch)
+    if recipe["kind"] in ("plain", "html", "json", "stream", "sse") and not recipe.get("iterable") and "raise_at" not in recipe and draw(st.integers(0, 23)) == 0:
+        recipe["big"] = {"size": draw(st.sampled_from(BIG_SIZES)), "as": draw(st.sampled_from(["str", "bytes"]))}
+        recipe.pop("charset", None)  # the written-out content is ASCII / raw bytes; any charset would do, utf-8 keeps the byte count
+    elif recipe["kind"] == "file" and not recipe.get("hostile_ctor") and draw(st.integers(0, 23)) == 0:
+        recipe["size"] = draw(st.sampled_from(BIG_SIZES))
+        recipe["bigfile"] = True  # served from a file of the check's own (its name on disk is big<n>.bin)
+        recipe.pop("name", None)
+        recipe["chunk"] = draw(st.sampled_from([None, 65536]))  # at most a dozen events: every fault point stays affordable
+        if recipe["chunk"] is None:
+            del recipe["chunk"]
     if draw(st.integers(0, 7)) == 0:
         ops = []
         for _ in range(draw(st.integers(1, 2))):
@@ -743,5 +861,7 @@ def run(rec, only=None):
     rec.exhaustive["filefaults"] = True
     core.drive_cases(rec, "cookie_attrs", cookie_attr_cases(), oracle)
     rec.exhaustive["cookie_attrs"] = True
+    core.drive_cases(rec, "sizes", size_cases(quick), oracle_sizes)
+    rec.exhaustive["sizes"] = not quick
     core.drive_hypothesis(rec, "responses", response_case(), oracle, 1500 if quick else 30000)
     rec.exhaustive["responses"] = False
